@@ -336,7 +336,16 @@ func verifC01Pipeline(nw, steps int) {
 		a.now = func() time.Time { return time.Unix(100, 0) }
 		return a
 	})
-	bh := NewBackendHandler([]gostatsd.Backend{be}, 1, nw, 2, af)
+	// per-shard queue size 0 (unbuffered), 1 or 2
+	qs := nondetIntIn(0, 2)
+	if qs == 0 {
+		qs = 0
+	} else if qs == 1 {
+		qs = 1
+	} else {
+		qs = 2
+	}
+	bh := NewBackendHandler([]gostatsd.Backend{be}, 1, nw, qs, af)
 	ctx := context.Background()
 	for _, w := range bh.workers {
 		go w.work()
